@@ -57,6 +57,12 @@ Theorem C06_world_prob_total : forall table, (world_prob table (fun _ => 1) == 1
 Proof. exact world_prob_total. Qed.
 Print Assumptions C06_world_prob_total.
 
+(* the worlds the sum ranges over are exactly the 2^n subsets of the n uncertain inputs, each once *)
+Theorem C06_worlds_enumeration : forall table,
+    NoDup (worlds 0 table) /\ forall W, In W (worlds 0 table) <-> W < 2 ^ N.of_nat (length table).
+Proof. intros table; split; [apply worlds_nodup | apply worlds_iff_lt]. Qed.
+Print Assumptions C06_worlds_enumeration.
+
 (* ===== (3) the generic semiring theorem ========================================================================= *)
 (* For ANY tag structure and any join satisfying sols_spec: when the driver returns, every stored tag is generated
    from the initial tags by sums of (non-zero) products along ground rule instances ... *)
